@@ -1,4 +1,5 @@
 import ArrowModel.C15.Spec
+import ArrowModel.Generated.C15
 /-
 C15 — model of the push decoder's I/O side.
 
@@ -283,22 +284,23 @@ deriving DecidableEq, Repr
 namespace RowBudget
 
 /-- `RowBudget::is_exhausted` -/
-def isExhausted (b : RowBudget) : Bool := b.limit == some 0
+def isExhausted (b : RowBudget) : Bool := b.limit == some Generated.C15.BUDGET_EXHAUSTED_LIMIT
 
 /-- `RowBudget::rows_after` -/
 def rowsAfter (b : RowBudget) (rowsBefore : Nat) : Nat :=
-  let afterOffset := rowsBefore - b.offset.getD 0
+  let afterOffset := rowsBefore - b.offset.getD Generated.C15.BUDGET_DEFAULT_OFFSET
   match b.limit with
   | some l => min afterOffset l
   | none => afterOffset
 
 /-- `RowBudget::selected_row_limit` (`saturating_add` never saturates for naturals) -/
-def selectedRowLimit (b : RowBudget) : Option Nat := b.limit.map (· + b.offset.getD 0)
+def selectedRowLimit (b : RowBudget) : Option Nat :=
+  b.limit.map (· + b.offset.getD Generated.C15.BUDGET_SELECTED_DEFAULT_OFFSET)
 
 /-- `RowBudget::advance` -/
 def advance (b : RowBudget) (rowsBefore rowsAfter : Nat) : RowBudget :=
   { offset := b.offset.map (fun o => o - (rowsBefore - rowsAfter)),
-    limit := if rowsAfter ≠ 0 then b.limit.map (· - rowsAfter) else b.limit }
+    limit := if rowsAfter ≠ Generated.C15.BUDGET_ADVANCE_SKIP_WHEN then b.limit.map (· - rowsAfter) else b.limit }
 
 end RowBudget
 
